@@ -444,6 +444,34 @@ def r8_names_written_in_a_readable_form(ck, hdr):
                     detail = "the bytes that make the writer quote a name (%s...) do not include the white-space bytes %s of the parser" % (forcing[:8], missing)
             ck.require(good, rule, "a path is formatted into a header line only by code that quotes names with white space (%s)" % host.id.split("::")[-2],
                        detail, fn.where(t), ok_detail="the quoting test covers every byte is_whitespace() accepts")
+            # Path::display() is lossy for a name that is not UTF-8 (every offending byte becomes U+FFFD): the plain form may only be
+            # reached for names that are UTF-8 - under "the name is not UTF-8" the formatting call is unreachable
+            from .. import pathconst as _pc
+
+            def _atom(e):
+                utf8 = df.mentions(e, lambda x: df.is_call(x, "core::str::converts::from_utf8", "str::from_utf8", "Path::to_str", "OsStr::to_str"))
+                if not utf8:
+                    return None
+                if df.is_call(e, "::is_ok") or df.is_call(e, "::is_some"):
+                    return False
+                if df.is_call(e, "::is_err") or df.is_call(e, "::is_none"):
+                    return True
+                return None
+
+            def _variant(e, adt):
+                if df.is_call(e, "core::str::converts::from_utf8", "str::from_utf8"):
+                    return "Err"
+                if df.is_call(e, "Path::to_str", "OsStr::to_str"):
+                    return "None"
+                return None
+            if host is fn:
+                reach = _pc.reach_under(fn, _atom, _variant)
+                ck.require(bb not in reach, rule, "the lossy plain form is written only for names that are UTF-8 (%s)" % host.id.split("::")[-2],
+                           "Path::display() is reached for a name that is not valid UTF-8: it writes U+FFFD for every offending byte, so the name "
+                           "read back is another name (the quoted form with octal escapes carries such bytes)", fn.where(t),
+                           ok_detail="unreachable under `from_utf8(name) is Err`")
+            else:
+                ck.info(rule, "Path::display() inside a closure of %s" % host.id.split("::")[-1], "UTF-8 guard not decided for a closure", fn.where(t))
     ck.floor(rule, "places where the writer formats a path", n, 1)
 
 
